@@ -21,7 +21,20 @@ def main():
     code = dict(case.get('code', {}))
     for k in case.get('callables', []):
         val = code[k]
-        code[k] = (lambda v=val: v)
+        how = case.get('callable_kind', 'callable')
+        if how == 'method':
+            class Secrets:
+                def __init__(self, v):
+                    self.v = v
+
+                def read(self):
+                    return self.v
+            code[k] = Secrets(val).read
+        elif how == 'partial':
+            import functools
+            code[k] = functools.partial(lambda v: v, val)
+        else:
+            code[k] = (lambda v=val: v)
     try:
         if kind == 'lookup':
             cfg = ConfigService(code, tracepoints=TracepointConfigService())
